@@ -163,6 +163,12 @@ theorem c14_end_block_of_failed_proposals_is_identity (n : Node) (wall : Nat) (g
     simp only [Bool.false_eq_true, if_false]
     exact ih (fun ms' hm st => hall ms' (by simp [hm]) st) w
 
+-- non-vacuity of the premise above: a proposal that fails in every state (its message is not signed by the gov account)
+example : ∀ st, (govExecAll 0 st [Msg.strParams (AddrTok.ok 5 false) 0]).2 = false := by
+  intro st
+  have : ([Msg.strParams (AddrTok.ok 5 false) 0].all (fun m => decide (m.signer = some Mgov))) = false := by decide
+  simp [govExecAll, this]
+
 -- non-vacuity: a concrete state with an accepted order satisfies the room hypothesis
 example : (2 : Int) ^ 255 = 57896044618658097711785492504343953926634992332820282019728792003956564819968 := by decide
 
